@@ -241,5 +241,12 @@ Definition ins_case_ok (c : ins_case) : bool :=
   option_eqb (list_eqb entry_eqb)
     (insert_operator (i_ops c) (i_anchor c) (i_binary c) (i_new c) (i_create c)) (i_after c).
 
-Record build_case := { bc_ops : oplist; bc_built : option built }.
-Definition build_case_ok (c : build_case) : bool := option_eqb built_eqb (build_table (bc_ops c)) (bc_built c).
+(* bc_covered: does the precedence tuple the real Parser object builds mention every
+   operator token of the table (no level dropped by the range loop)? *)
+Record build_case := { bc_ops : oplist; bc_built : option built; bc_covered : bool }.
+Definition build_case_ok (c : build_case) : bool :=
+  option_eqb built_eqb (build_table (bc_ops c)) (bc_built c) &&
+  match bc_built c with
+  | Some b => Bool.eqb (all_levels_visited b) (bc_covered c)
+  | None => true
+  end.
